@@ -42,13 +42,31 @@ func getLeftEntityPosition(left []interface{}, id interface{}) int {
 	leftEntityPosition := -1
 	for lIdx, lv := range left {
 		if lMap, ok := lv.(map[string]interface{}); ok {
-			if lID, ok := lMap[common.IDFieldName]; ok && lID == id {
+			if lID, ok := lMap[common.IDFieldName]; ok && sameID(lID, id) {
 				leftEntityPosition = lIdx
 				break
 			}
 		}
 	}
 	return leftEntityPosition
+}
+
+// sameID compares two ids taken from service responses. An id is a scalar; anything else
+// (an object, a list) never identifies an entity, and comparing two such values with ==
+// would panic.
+func sameID(a, b interface{}) bool {
+	switch x := a.(type) {
+	case string:
+		y, ok := b.(string)
+		return ok && x == y
+	case float64:
+		y, ok := b.(float64)
+		return ok && x == y
+	case bool:
+		y, ok := b.(bool)
+		return ok && x == y
+	}
+	return false
 }
 
 func mergeOrRewriteMap(lSlice []interface{}, rMap map[string]interface{}, id int) []interface{} {
